@@ -7,6 +7,7 @@ import (
 	"encoding/hex"
 	"fmt"
 	"math/rand"
+	"os"
 	"sort"
 	"strconv"
 	"strings"
@@ -49,10 +50,19 @@ type Fam struct {
 	nextArm int
 	started bool
 	extra   map[string]int
+	dir     string // directory of the on-disk keybase (profile "lazy")
+	script  []string
 }
 
 func New(profile string) *Fam { return &Fam{Profile: profile, extra: map[string]int{}} }
 func (f *Fam) Extra() map[string]int { return f.extra }
+
+// Cleanup removes the directory of the on-disk keybase
+func (f *Fam) Cleanup() {
+	if f.dir != "" {
+		os.RemoveAll(f.dir)
+	}
+}
 
 // ---------- multisig trees
 
@@ -273,7 +283,15 @@ func (f *Fam) Gen(r *rand.Rand, i int) string {
 		f.started = true
 		return "kb.new"
 	}
+	if len(f.script) > 0 { // a scenario under way
+		op := f.script[0]
+		f.script = f.script[1:]
+		return op
+	}
 	kbWeight := 3 // keybase operations are slow (KDF): keep them a minority
+	if f.Profile == "lazy" {
+		kbWeight = 50
+	}
 	if r.Intn(100) >= kbWeight {
 		pk := genPK(r, 3)
 		msg := r.Intn(5)
@@ -304,6 +322,37 @@ func (f *Fam) Gen(r *rand.Rand, i int) string {
 			return r.Intn(f.nextKey + 2)
 		}
 		return ids[r.Intn(len(ids))]
+	}
+	if r.Intn(6) == 0 {
+		// the whole way round: a stored key is exported under a new passphrase (often the empty one), removed, and
+		// imported again - with the export's passphrase, with the passphrase it was stored under, or with another one
+		var have []int
+		for _, k := range ids {
+			if _, ok := f.pass[k]; ok {
+				have = append(have, k)
+			}
+		}
+		if len(have) > 0 {
+			k := have[r.Intn(len(have))]
+			p := f.pass[k]
+			e := pass()
+			if r.Intn(3) == 0 {
+				e = "-"
+			}
+			with := e
+			switch r.Intn(4) {
+			case 0:
+				with = p
+			case 1:
+				with = pass()
+			}
+			aid := f.nextArm
+			f.script = []string{fmt.Sprintf("kb.delete %d %s", k, p), fmt.Sprintf("kb.import %d %s %s", aid, with, pass())}
+			if r.Intn(2) == 0 { // and once more with the right one, should the first attempt have been refused
+				f.script = append(f.script, fmt.Sprintf("kb.import %d %s %s", aid, e, pass()))
+			}
+			return fmt.Sprintf("kb.export %d %d %s %s", aid, k, p, e)
+		}
 	}
 	switch r.Intn(12) {
 	case 0, 1:
@@ -386,7 +435,20 @@ func (f *Fam) Exec(op string) (obs string, fails []common.Failure) {
 		// compared with the Lean model's recursive count, for which `validDepth_iff` proves the closed form)
 		return strconv.FormatBool(ok), fails
 	case "kb.new":
-		f.kb = keys.NewInMemory()
+		if f.Profile == "lazy" {
+			// the on-disk keybase (opened anew for every operation), in a directory of its own
+			if f.dir != "" {
+				os.RemoveAll(f.dir)
+			}
+			d, err := os.MkdirTemp("", "verif-keybase-")
+			if err != nil {
+				panic(err)
+			}
+			f.dir = d
+			f.kb = keys.New("kb", d)
+		} else {
+			f.kb = keys.NewInMemory()
+		}
 		f.addrs, f.privs, f.armors = map[int]sdk.Address{}, map[int][64]byte{}, map[int]string{}
 		f.pass, f.armPass = map[int]string{}, map[int]string{}
 		f.nextKey, f.nextArm = 0, 0
